@@ -18,7 +18,7 @@ def wpA {α} (I : St → Prop) (M : St → St → Prop) : Prog α → (α → St
   | .pure x, Q, _, s => Q x s
   | .get k, Q, a, s => wpA I M (k s) Q a s
   | .set s' p, Q, a, _ => wpA I M p Q a s'
-  | .call _ _ _ k, Q, a, s => I s ∧ M a s ∧ ∀ b s', I s' → M s s' → currOf s' = currOf s → wpA I M (k b) Q a s'
+  | .call _ _ _ k, Q, a, s => I s ∧ M a s ∧ ∀ b s', I s' → M s s' → wpA I M (k b) Q a s'
 
 theorem wpA_bind {α β} (I M) (p : Prog α) (f : α → Prog β) (Q : β → St → Prop) (a s : St) :
     wpA I M (p.bind f) Q a s ↔ wpA I M p (fun x s' => wpA I M (f x) Q a s') a s := by
@@ -29,8 +29,8 @@ theorem wpA_bind {α β} (I M) (p : Prog α) (f : α → Prog β) (Q : β → St
   | call cb m e k ih =>
     simp only [Prog.bind, wpA]
     constructor
-    · rintro ⟨h1, h2, h3⟩; exact ⟨h1, h2, fun b s' hs hm hc => (ih b s').mp (h3 b s' hs hm hc)⟩
-    · rintro ⟨h1, h2, h3⟩; exact ⟨h1, h2, fun b s' hs hm hc => (ih b s').mpr (h3 b s' hs hm hc)⟩
+    · rintro ⟨h1, h2, h3⟩; exact ⟨h1, h2, fun b s' hs hm => (ih b s').mp (h3 b s' hs hm)⟩
+    · rintro ⟨h1, h2, h3⟩; exact ⟨h1, h2, fun b s' hs hm => (ih b s').mpr (h3 b s' hs hm)⟩
 
 theorem wpA_mono {α} (I M) (p : Prog α) (Q Q' : α → St → Prop) (a s : St)
     (h : ∀ x s, Q x s → Q' x s) : wpA I M p Q a s → wpA I M p Q' a s := by
@@ -38,7 +38,7 @@ theorem wpA_mono {α} (I M) (p : Prog α) (Q Q' : α → St → Prop) (a s : St)
   | pure x => exact h x s
   | get k ih => exact ih s s
   | set s' p ih => exact ih s'
-  | call cb m e k ih => rintro ⟨h1, h2, h3⟩; exact ⟨h1, h2, fun b s' hs hm hc => ih b s' (h3 b s' hs hm hc)⟩
+  | call cb m e k ih => rintro ⟨h1, h2, h3⟩; exact ⟨h1, h2, fun b s' hs hm => ih b s' (h3 b s' hs hm)⟩
 
 @[simp] theorem wpA_pure {α} (I M) (x : α) (Q) (a s) : wpA I M (pure x : Prog α) Q a s = Q x s := rfl
 @[simp] theorem wpA_bind' {α β} (I M) (p : Prog α) (f : α → Prog β) (Q) (a s : St) :
@@ -49,7 +49,7 @@ theorem wpA_mono {α} (I M) (p : Prog α) (Q Q' : α → St → Prop) (a s : St)
     wpA I M (modify f) Q a s = Q () (f s) := rfl
 @[simp] theorem wpA_callCb (I M) (cb m e) (Q : Bool → St → Prop) (a s) :
     wpA I M (callCb cb m e) Q a s =
-      (I s ∧ M a s ∧ ∀ b s', I s' → M s s' → currOf s' = currOf s → Q b s') := rfl
+      (I s ∧ M a s ∧ ∀ b s', I s' → M s s' → Q b s') := rfl
 
 /-- two invariants proved separately can be combined -/
 theorem wpA_and {α} (I1 I2 : St → Prop) (M) (p : Prog α) (Q1 Q2 : α → St → Prop) (a s : St) :
@@ -60,10 +60,10 @@ theorem wpA_and {α} (I1 I2 : St → Prop) (M) (p : Prog α) (Q1 Q2 : α → St 
   | set s' p ih => exact ih s'
   | call cb m e k ih =>
     rintro ⟨h1, h2, h3⟩ ⟨g1, _, g3⟩
-    exact ⟨⟨h1, g1⟩, h2, fun b s' hs hm hc => ih b s' (h3 b s' hs.1 hm hc) (g3 b s' hs.2 hm hc)⟩
+    exact ⟨⟨h1, g1⟩, h2, fun b s' hs hm => ih b s' (h3 b s' hs.1 hm) (g3 b s' hs.2 hm)⟩
 
 def Post (I : St → Prop) (M : St → St → Prop) (a : St) : Int → St → Prop :=
-  fun _ s' => I s' ∧ M a s' ∧ currOf s' = currOf a
+  fun _ s' => I s' ∧ M a s'
 
 def SafeA (I : St → Prop) (M : St → St → Prop) (p : Prog Int) : Prop :=
   ∀ s, I s → wpA I M p (Post I M s) s s
@@ -85,20 +85,20 @@ def ChainOK (I : St → Prop) (M : St → St → Prop) : St → List Frame → P
   | _, [] => True
   | cur, f :: rest =>
     -- the innermost frame can be resumed from the current state …
-    M f.susp cur ∧ currOf cur = currOf f.susp ∧
-    (∀ b s', I s' → M f.susp s' → currOf s' = currOf f.susp → wpA I M (f.k b) (Post I M f.anchor) f.anchor s') ∧
+    M f.susp cur ∧
+    (∀ b s', I s' → M f.susp s' → wpA I M (f.k b) (Post I M f.anchor) f.anchor s') ∧
     -- … and its program was started when the frame below was the innermost one
     ChainOK I M f.anchor rest
 
 def CfgOK (I : St → Prop) (M : St → St → Prop) (c : Cfg) : Prop := I c.st ∧ ChainOK I M c.st c.stack
 
 theorem chain_step (I M) (fr : Frameable I M) (cur cur' : St) (stack : List Frame)
-    (h : ChainOK I M cur stack) (hm : M cur cur') (hc : currOf cur' = currOf cur) : ChainOK I M cur' stack := by
+    (h : ChainOK I M cur stack) (hm : M cur cur') : ChainOK I M cur' stack := by
   cases stack with
   | nil => trivial
   | cons f rest =>
-    obtain ⟨h1, h2, h3, h4⟩ := h
-    exact ⟨fr.trans _ _ _ h1 hm, by rw [hc, h2], h3, h4⟩
+    obtain ⟨h1, h3, h4⟩ := h
+    exact ⟨fr.trans _ _ _ h1 hm, h3, h4⟩
 
 /-- running a verified program from an OK configuration gives an OK configuration -/
 theorem exec_ok (I M) (fr : Frameable I M) (p : Prog Int) : ∀ (c : Cfg) (anchor : St),
@@ -108,10 +108,10 @@ theorem exec_ok (I M) (fr : Frameable I M) (p : Prog Int) : ∀ (c : Cfg) (ancho
   | pure x =>
     intro c anchor hch hw
     simp only [wpA, Post] at hw
-    obtain ⟨h1, h2, h3⟩ := hw
+    obtain ⟨h1, h2⟩ := hw
     refine ⟨fr.emitI _ _ h1, ?_⟩
     show ChainOK I M (c.st.emit (.ret x)) c.stack
-    exact chain_step I M fr anchor _ _ hch (fr.emitM _ _ _ h2) (by simpa using h3)
+    exact chain_step I M fr anchor _ _ hch (fr.emitM _ _ _ h2)
   | get k ih =>
     intro c anchor hch hw
     exact ih c.st c anchor hch hw
@@ -123,7 +123,7 @@ theorem exec_ok (I M) (fr : Frameable I M) (p : Prog Int) : ∀ (c : Cfg) (ancho
     obtain ⟨h1, h2, h3⟩ := hw
     refine ⟨fr.emitI _ _ h1, ?_⟩
     show ChainOK I M (c.st.emit (.invoke cb.name m e)) ({ k := k, evts := e, anchor := anchor, susp := c.st } :: c.stack)
-    exact ⟨fr.emitM _ _ _ (fr.refl _), by simp, h3, hch⟩
+    exact ⟨fr.emitM _ _ _ (fr.refl _), h3, hch⟩
 
 /-- every API program is safe ⇒ every machine step preserves `CfgOK` -/
 theorem step_ok (I M) (fr : Frameable I M) (hsafe : ∀ (c : Cfg) (op : Op), SafeA I M (apiProg c op))
@@ -139,17 +139,17 @@ theorem step_ok (I M) (fr : Frameable I M) (hsafe : ∀ (c : Cfg) (op : Op), Saf
       have : step c (.ret b) = exec { c with stack := rest } f.anchor (f.k b) := by simp [step, hs]
       rw [this]
       rw [hs] at hch
-      obtain ⟨h1, h2, h3, h4⟩ := hch
-      exact exec_ok I M fr (f.k b) { c with stack := rest } f.anchor h4 (h3 b c.st hI h1 h2)
+      obtain ⟨h1, h3, h4⟩ := hch
+      exact exec_ok I M fr (f.k b) { c with stack := rest } f.anchor h4 (h3 b c.st hI h1)
   | errno e =>
     simp only [step]
     refine ⟨fr.errnoI _ _ hI, ?_⟩
-    exact chain_step I M fr c.st _ _ hch (fr.errnoM _ _ _ (fr.refl _)) rfl
+    exact chain_step I M fr c.st _ _ hch (fr.errnoM _ _ _ (fr.refl _))
   | _ =>
     all_goals
       simp only [step]
       first
-        | exact exec_ok I M fr _ c c.st (chain_step I M fr c.st c.st _ hch (fr.refl _) rfl) (hsafe c _ c.st hI)
+        | exact exec_ok I M fr _ c c.st (chain_step I M fr c.st c.st _ hch (fr.refl _)) (hsafe c _ c.st hI)
 
 theorem reach_ok (I M) (fr : Frameable I M) (hsafe : ∀ (c : Cfg) (op : Op), SafeA I M (apiProg c op))
     (hinit : I {}) (ops : List Op) : CfgOK I M (run {} ops) := by
